@@ -132,6 +132,37 @@ class Expander:
                         env[leaf.id] = _iter_component(it, path, ("comp", comp.lineno, comp.col_offset))
         return env
 
+    def namedtuples(self) -> dict:
+        """{class qualname: field names} of the NamedTuple classes of the package."""
+        tab = getattr(self, "_namedtuples", None)
+        if tab is None:
+            tab = {q: list(c.fields) for q, c in self.repo.classes.items() if any(b.split(".")[-1] == "NamedTuple" for b in c.base_names)}
+            self._namedtuples = tab
+        return tab
+
+    def _nt_component(self, base: Term, attr: str):
+        """`<value>.field` where the value is a NamedTuple of the package: the component (as for `a, b, c = value`)."""
+        cands = [(q, names) for q, names in self.namedtuples().items() if attr in names]
+        if len(cands) != 1:
+            return None
+        names = cands[0][1]
+        i = names.index(attr)
+
+        def comp(t):
+            if t[0] == "tuple" and len(t[1]) == len(names):
+                return t[1][i]
+            if t[0] == "phi":
+                parts = [comp(a) for a in t[1]]
+                return phi(parts) if all(p is not None for p in parts) else None
+            if t[0] == "ifexp":
+                a, b = comp(t[2]), comp(t[3])
+                return ("ifexp", t[1], a, b) if a is not None and b is not None else None
+            if t[0] == "call" and t[1][0] in ("attr", "global") and not (t[1][0] == "global" and not t[1][1].startswith(self.repo.package if hasattr(self.repo, "package") else "")):
+                return ("item", t, i)
+            return None
+
+        return comp(base)
+
     def var_at(self, func: Func, name: str, node: Node, out: bool = False) -> Term:
         df = self.df(func)
         defs = df.reaching_out(node, name) if out else df.reaching(node, name)
@@ -392,7 +423,11 @@ class Expander:
                     q = self.repo.resolve_in_module(func.module, dn)
                     if q is not None:
                         return self.const_global(q)
-            return mk_attr(X(e.value), e.attr, lambda m, a, func=func: self.method_may_write(func, m, a))
+            bt_ = X(e.value)
+            nt = self._nt_component(bt_, e.attr)
+            if nt is not None:
+                return nt
+            return mk_attr(bt_, e.attr, lambda m, a, func=func: self.method_may_write(func, m, a))
         if isinstance(e, ast.Call):
             fn = X(e.func)
             args = []
@@ -405,6 +440,13 @@ class Expander:
             for kw in e.keywords:
                 kws.append((kw.arg if kw.arg is not None else "**", X(kw.value)))
             ct = ("call", fn, tuple(args), tuple(sorted(kws, key=lambda p: p[0])))
+            # constructing a NamedTuple of the package is building a tuple (fields in declaration order)
+            if fn[0] == "global" and fn[1] in self.namedtuples():
+                names = self.namedtuples()[fn[1]]
+                given = dict(zip(names, args))
+                given.update({k: v for k, v in kws if k != "**"})
+                if len(args) <= len(names) and all(n_ in given for n_ in names) and not any(a_[0] == "star" for a_ in args):
+                    return ("tuple", tuple(given[n_] for n_ in names))
             if self.auto_inline and e is not self._top:
                 it = self._inline_call(ct, func)
                 if it is not None:
